@@ -31,7 +31,11 @@ def main():
     fresh_tr = {}
 
     def nm(s):
-        return name_of.get(s, "?" + s[:24])
+        if s in name_of:
+            return name_of[s]
+        if len(s) < 16 and s.startswith("EPSG:") and s[5:].isdigit():
+            return s   # literal name of a bulk code
+        return "?" + s[:24]
 
     def err(e):
         for cls, tag in ((AssertionError, "AssertionError"), (IndexError, "IndexError"),
@@ -49,6 +53,36 @@ def main():
     psys = {}
     obs = []
     records = []
+    # objects whose ids are in keys of the transformer cache: id -> (weakref to the pyproj object, the CRS
+    # instance on the other side (kept alive), its expected system, always_xy, whether the id was the source)
+    import weakref
+    tracked = {}
+    XY_PTS = (np.array([500000.0, 300000.0, 0.0]), np.array([1000000.0, 5000000.0, 0.0]))
+
+    def probe_reused(c, code):
+        """`c` was just built from EPSG `code`; if its pyproj object sits at an address that was (and maybe still
+        is) in a key of the transformer cache while the object that owned the address is gone, the transformer
+        returned now must nevertheless be for the new pair."""
+        t = tracked.get(id(c._crs))
+        if t is None:
+            return
+        ref, other, osys, xy, as_src = t
+        if ref() is c._crs:
+            return  # same, still pinned object: nothing was recycled
+        mine = pyproj.CRS.from_epsg(code)
+        if as_src:
+            f = c.transformer_to_crs(other, always_xy=xy)
+            want = pyproj.Transformer.from_crs(mine, refs[osys], always_xy=xy).transform(XY_PTS[0].copy(), XY_PTS[1].copy())
+        else:
+            f = other.transformer_to_crs(c, always_xy=xy)
+            want = pyproj.Transformer.from_crs(refs[osys], mine, always_xy=xy).transform(XY_PTS[0].copy(), XY_PTS[1].copy())
+        got = f(XY_PTS[0].copy(), XY_PTS[1].copy())
+        ok = all(np.allclose(g, w, rtol=1e-12, atol=1e-9, equal_nan=True) for g, w in zip(got, want))
+        records.append({"k": "tr", "ok": bool(ok), "a": ["int", code] if as_src else ["sys", osys],
+                        "b": ["sys", osys] if as_src else ["int", code], "sa": -1, "sb": -1, "xy": xy,
+                        "recycled_id": True, "got": [np.asarray(g).tolist() for g in got],
+                        "want": [np.asarray(w).tolist() for w in want]})
+        del tracked[id(c._crs)]
 
     def src_points(s):
         # probe points expressed in system s
@@ -83,6 +117,21 @@ def main():
             elif kind == "mi":
                 _, v, n, sysn = op
                 obs.append(made(v, CRS(n), sysn, ["int", n]))
+            elif kind == "bk":
+                # bulk: many distinct cheap specs through one variable (cache capacity / id recycling probe)
+                _, v, codes = op
+                V.pop(v, None)
+                for code in codes:
+                    try:
+                        c = CRS(code)
+                        obs.append("s:" + nm(str(c)))
+                        probe_reused(c, code)
+                        V[v] = c
+                        vsys[v], vlazy[v], vspec[v] = 100000 + code, False, ["int", code]
+                    except Exception as e:  # pylint: disable=broad-except
+                        obs.append(err(e))
+                    c = None
+                continue
             elif kind == "ms":
                 _, v, name, sysn = op
                 obs.append(made(v, CRS(texts[name]), sysn, ["str", name]))
@@ -124,6 +173,8 @@ def main():
                 _, a, b, xy = op
                 f = V[a].transformer_to_crs(V[b], always_xy=xy)
                 sa, sb = vsys[a], vsys[b]
+                tracked[id(V[a]._crs)] = (weakref.ref(V[a]._crs), V[b], sb, xy, True)
+                tracked[id(V[b]._crs)] = (weakref.ref(V[b]._crs), V[a], sa, xy, False)
                 x, y = src_points(sa)
                 if not xy:
                     # native axis order of the source
